@@ -5,6 +5,7 @@ package main
 // re-checks every observed run), and a driver that answers pending tasks in a seeded order.
 
 import (
+	"sync"
 	"fmt"
 	"math/rand"
 	"sort"
@@ -731,11 +732,25 @@ func RunBlk(b *Blk, env0 [4]bool, choose func(n int) int, writesFor func(task, n
 		vars[fmt.Sprintf("v%d", i)] = v
 		env[i] = v
 	}
-	in, err := StartInst(defs, InstOpt{Vars: vars, Opts: opts})
+	// one option value per initial assignment, made once and handed to every instance that starts with that assignment
+	// (an application prepares its options once): the instances do not share what they write
+	blkVarOptions.Lock()
+	vo, ok := blkVarOptions.m[env0]
+	if !ok {
+		vo = bpmn.WithVariables(vars)
+		blkVarOptions.m[env0] = vo
+	}
+	blkVarOptions.Unlock()
+	in, err := StartInst(defs, InstOpt{Opts: append([]bpmn.Option{vo}, opts...)})
 	must(err)
 	defer in.Close()
 	return DriveBlk(in, b, env0, choose, writesFor, maxSteps)
 }
+
+var blkVarOptions = struct {
+	sync.Mutex
+	m map[[4]bool]bpmn.Option
+}{m: map[[4]bool]bpmn.Option{}}
 
 // DriveBlk drives an instance of the program that has already been started with the variables env0
 func DriveBlk(in *Inst, b *Blk, env0 [4]bool, choose func(n int) int, writesFor func(task, nth int) [4]int, maxSteps int) blkObs {
